@@ -392,22 +392,23 @@ Lemma is_nil_map {A B} (f : A -> B) l : is_nil (map f l) = is_nil l.
 Proof. now destruct l. Qed.
 Lemma existsb_map_comm {A B} (f : B -> bool) (g : A -> B) l : existsb f (map g l) = existsb (fun x => f (g x)) l.
 Proof. induction l as [|a t IH]; [reflexivity|]. cbn [map existsb]. now rewrite IH. Qed.
-Lemma existsb_is_nil_map {A B} (g : list A -> list B) (l : list (list A)) :
-  (forall x, is_nil (g x) = is_nil x) -> existsb is_nil (map g l) = existsb is_nil l.
-Proof. intros H. rewrite existsb_map_comm. induction l as [|a t IH]; [reflexivity|]. cbn [existsb]. now rewrite H, IH. Qed.
+Lemma existsb_nil_shift_pat d (l : list pattern) : existsb is_nil (map (shift_pat d) l) = existsb is_nil l.
+Proof. induction l as [|p t IH]; [reflexivity|]. cbn [map existsb]. unfold shift_pat at 1. now rewrite is_nil_map, IH. Qed.
+Lemma existsb_nil_shift_occ d (l : list occ) : existsb is_nil (map (shift_occ d) l) = existsb is_nil l.
+Proof. induction l as [|p t IH]; [reflexivity|]. cbn [map existsb]. unfold shift_occ at 1. now rewrite is_nil_map, IH. Qed.
 
 Lemma validate_shift d ref est : validate (shift_pats d ref) (shift_pats d est) = validate ref est.
-Proof. unfold validate, shift_pats. rewrite <- map_app.
-  pose proof (existsb_is_nil_map (shift_pat d) (ref ++ est)) as HH. Set Printing All. Show. Unset Printing All.
-  rewrite (existsb_is_nil_map (shift_pat d) (ref ++ est)); [reflexivity|]. intros p. apply is_nil_map. Qed.
+Proof. unfold validate, shift_pats. now rewrite <- map_app, existsb_nil_shift_pat. Qed.
 Lemma concat_shift d ps : concat (shift_pats d ps) = map (shift_occ d) (concat ps).
-Proof. unfold shift_pats, shift_pat. now rewrite <- concat_map. Qed.
+Proof. induction ps as [|p t IH]; [reflexivity|]. cbn [shift_pats map concat]. fold (shift_pats d t). rewrite IH, map_app. reflexivity. Qed.
+Lemma length_concat_shift_occ d (l : list occ) : length (concat (map (shift_occ d) l)) = length (concat l).
+Proof. induction l as [|o t IH]; [reflexivity|]. cbn [map concat]. now rewrite !app_length, shift_occ_length, IH. Qed.
 Lemma n_onset_shift d ps : n_onset_midi (shift_pats d ps) = n_onset_midi ps.
-Proof. unfold n_onset_midi. rewrite concat_shift. unfold shift_occ. now rewrite <- concat_map, map_length. Qed.
+Proof. unfold n_onset_midi. rewrite concat_shift. apply length_concat_shift_occ. Qed.
 Lemma no_notes_shift d ref est : no_notes (shift_pats d ref) (shift_pats d est) = no_notes ref est.
 Proof. unfold no_notes. now rewrite !n_onset_shift. Qed.
 Lemma empty_occ_shift d ps : existsb is_nil (concat (shift_pats d ps)) = existsb is_nil (concat ps).
-Proof. rewrite concat_shift. apply (existsb_is_nil_map (shift_occ d) (concat ps)). intros o. apply is_nil_map. Qed.
+Proof. rewrite concat_shift. apply existsb_nil_shift_occ. Qed.
 Lemma sm_raises_shift d ref est : sm_raises (shift_pats d ref) (shift_pats d est) = sm_raises ref est.
 Proof. unfold sm_raises. now rewrite !empty_occ_shift. Qed.
 Lemma tl_raises_shift d ref est : tl_raises (shift_pats d ref) (shift_pats d est) = tl_raises ref est.
@@ -502,3 +503,228 @@ Theorem pattern_shift d ref est tol thres :
   /\ occurrence_FPR (shift_pats d ref) (shift_pats d est) thres = occurrence_FPR ref est thres
   /\ three_layer_FPR (shift_pats d ref) (shift_pats d est) = three_layer_FPR ref est.
 Proof. split; [apply standard_shift|]. split; [apply establishment_shift|]. split; [apply occurrence_shift|apply three_layer_shift]. Qed.
+
+(* ------------------------------------------------------------------------------------------ *)
+(* C08: permuting the list of reference patterns                                               *)
+(* ------------------------------------------------------------------------------------------ *)
+Definition fpr_eq (a b : fpr) : Prop := let '(f, p, r) := a in let '(f', p', r') := b in f == f' /\ p == p' /\ r == r'.
+Definition res_fpr_eq (a b : res fpr) : Prop :=
+  match a, b with Ok x, Ok y => fpr_eq x y | Raise e, Raise e' => e = e' | _, _ => False end.
+Lemma mk_fpr_eq p r p' r' : p == p' -> r == r' -> fpr_eq (mk_fpr p r) (mk_fpr p' r').
+Proof. intros Hp Hr. unfold mk_fpr, fpr_eq. split; [now apply f_measure_ext|tauto]. Qed.
+Lemma zero_fpr_eq : fpr_eq zero_fpr zero_fpr.
+Proof. cbn. lra. Qed.
+
+Lemma existsb_perm {A} (f : A -> bool) l l' : Permutation l l' -> existsb f l = existsb f l'.
+Proof. induction 1 as [|x l1 l2 P IH|x y l|l1 l2 l3 P1 IH1 P2 IH2]; cbn [existsb]; [reflexivity|now rewrite IH| |congruence].
+  destruct (f x), (f y); reflexivity. Qed.
+Lemma concat_perm {A} (l l' : list (list A)) : Permutation l l' -> Permutation (concat l) (concat l').
+Proof. induction 1 as [|x l1 l2 P IH|x y l|l1 l2 l3 P1 IH1 P2 IH2]; cbn [concat]; [reflexivity|now apply Permutation_app_head| |now rewrite IH1].
+  rewrite !app_assoc. apply Permutation_app_tail, Permutation_app_comm. Qed.
+Lemma validate_perm ref ref' est : Permutation ref ref' -> validate ref' est = validate ref est.
+Proof. intros P. unfold validate. now rewrite (existsb_perm (@is_nil occ) _ _ (Permutation_app_tail est P)). Qed.
+Lemma n_onset_perm ps ps' : Permutation ps ps' -> n_onset_midi ps' = n_onset_midi ps.
+Proof. intros P. unfold n_onset_midi. symmetry. apply Permutation_length, concat_perm, concat_perm, P. Qed.
+Lemma no_notes_perm ref ref' est : Permutation ref ref' -> no_notes ref' est = no_notes ref est.
+Proof. intros P. unfold no_notes. now rewrite (n_onset_perm _ _ P). Qed.
+Lemma empty_occ_perm (ps ps' : list pattern) : Permutation ps ps' -> existsb is_nil (concat ps') = existsb is_nil (concat ps).
+Proof. intros P. symmetry. apply existsb_perm, concat_perm, P. Qed.
+
+Lemma row_maxes_perm {A B} (sc : A -> B -> Q) rs rs' es : Permutation rs rs' ->
+  qmean (row_maxes sc rs' es) == qmean (row_maxes sc rs es).
+Proof. intros P. unfold row_maxes. symmetry. apply qmean_perm, Permutation_map, P. Qed.
+Lemma col_maxes_perm {A B} (sc : A -> B -> Q) rs rs' es : Permutation rs rs' ->
+  qmean (col_maxes sc rs' es) == qmean (col_maxes sc rs es).
+Proof. intros P. unfold col_maxes. apply qmean_map_ext. intros e _. symmetry. apply qmaxl_perm, Permutation_map, P. Qed.
+
+Lemma list_prod_perm_l {A B} (l1 l1' : list A) (l2 : list B) : Permutation l1 l1' -> Permutation (list_prod l1 l2) (list_prod l1' l2).
+Proof. induction 1 as [|x la lb P IH|x y l|la lb lc P1 IH1 P2 IH2]; cbn [list_prod]; [reflexivity|now apply Permutation_app_head| |now rewrite IH1].
+  rewrite !app_assoc. apply Permutation_app_tail, Permutation_app_comm. Qed.
+Lemma rel_pairs_perm thres ref ref' est : Permutation ref ref' -> Permutation (rel_pairs thres ref est) (rel_pairs thres ref' est).
+Proof. intros P. unfold rel_pairs. apply filter_perm, list_prod_perm_l, P. Qed.
+Lemma is_nil_perm {A} (l l' : list A) : Permutation l l' -> is_nil l' = is_nil l.
+Proof. intros P. destruct l as [|a t].
+  - apply Permutation_nil in P. now rewrite P.
+  - destruct l'; [|reflexivity]. symmetry in P. apply Permutation_nil in P. discriminate. Qed.
+
+Theorem establishment_ref_perm ref ref' est : Permutation ref ref' ->
+  res_fpr_eq (establishment_FPR ref est) (establishment_FPR ref' est).
+Proof. intros P. rewrite !establishment_unfold, (validate_perm _ _ est P), (no_notes_perm _ _ est P).
+  unfold sm_raises. rewrite (empty_occ_perm _ _ P).
+  destruct (validate ref est); [|reflexivity]. cbn [bind]. destruct (no_notes ref est); [apply zero_fpr_eq|].
+  destruct (existsb is_nil (concat ref) && existsb is_nil (concat est)); [reflexivity|]. cbn [res_fpr_eq]. unfold est_fpr.
+  apply mk_fpr_eq; symmetry; [now apply col_maxes_perm|now apply row_maxes_perm]. Qed.
+Theorem three_layer_ref_perm ref ref' est : Permutation ref ref' ->
+  res_fpr_eq (three_layer_FPR ref est) (three_layer_FPR ref' est).
+Proof. intros P. rewrite !three_layer_unfold, (validate_perm _ _ est P), (no_notes_perm _ _ est P).
+  unfold tl_raises. rewrite (empty_occ_perm _ _ P).
+  destruct (validate ref est); [|reflexivity]. cbn [bind]. destruct (no_notes ref est); [apply zero_fpr_eq|].
+  destruct (existsb is_nil (concat ref) || existsb is_nil (concat est)); [reflexivity|]. cbn [res_fpr_eq]. unfold tl_fpr.
+  apply mk_fpr_eq; symmetry; [now apply col_maxes_perm|now apply row_maxes_perm]. Qed.
+Theorem occurrence_ref_perm ref ref' est thres : Permutation ref ref' ->
+  res_fpr_eq (occurrence_FPR ref est thres) (occurrence_FPR ref' est thres).
+Proof. intros P. rewrite !occurrence_unfold, (validate_perm _ _ est P), (no_notes_perm _ _ est P).
+  unfold sm_raises. rewrite (empty_occ_perm _ _ P).
+  destruct (validate ref est); [|reflexivity]. cbn [bind]. destruct (no_notes ref est); [apply zero_fpr_eq|].
+  destruct (existsb is_nil (concat ref) && existsb is_nil (concat est)); [reflexivity|]. cbn [res_fpr_eq]. unfold occ_fpr.
+  pose proof (rel_pairs_perm thres _ _ est P) as R. rewrite (is_nil_perm _ _ R).
+  destruct (is_nil (rel_pairs thres ref est)); [apply mk_fpr_eq; reflexivity|].
+  apply mk_fpr_eq; unfold occ_prec, occ_rec.
+  - apply (mean_max_perm (fun a b => occ_P thres (fst a) (snd b)) _ _ R).
+  - apply (mean_max_perm (fun b a => occ_R thres (fst a) (snd b)) _ _ R). Qed.
+
+Theorem pattern_ref_perm ref ref' est thres : Permutation ref ref' ->
+  res_fpr_eq (establishment_FPR ref est) (establishment_FPR ref' est)
+  /\ res_fpr_eq (occurrence_FPR ref est thres) (occurrence_FPR ref' est thres)
+  /\ res_fpr_eq (three_layer_FPR ref est) (three_layer_FPR ref' est).
+Proof. intros P. split; [now apply establishment_ref_perm|]. split; [now apply occurrence_ref_perm|now apply three_layer_ref_perm]. Qed.
+Example pattern_ref_perm_ex : Permutation [[wit_A]; [wit_B]] [[wit_B]; [wit_A]].
+Proof. apply perm_swap. Qed.
+
+Print Assumptions establishment_range.
+Print Assumptions occurrence_range.
+Print Assumptions three_layer_range.
+Print Assumptions first_n_range.
+Print Assumptions standard_recall_range.
+Print Assumptions standard_FPR_gt_1_refuted.
+Print Assumptions score_matrix_transpose.
+Print Assumptions establishment_swap.
+Print Assumptions occurrence_swap.
+Print Assumptions three_layer_swap.
+Print Assumptions pattern_self.
+Print Assumptions first_n_self.
+Print Assumptions pattern_self_dup_refuted.
+Print Assumptions pattern_shift.
+Print Assumptions pattern_ref_perm.
+
+(* ------------------------------------------------------------------------------------------ *)
+(* standard_FPR: a perfect estimate (C02) and what is counted (C04)                            *)
+(* ------------------------------------------------------------------------------------------ *)
+Lemma row_diffs_zero l : (forall n, In n l -> fst n == 0 /\ snd n == 0) -> forall x, In x (row_diffs l) -> x == 0.
+Proof. induction l as [|a t IH]; intros H x Hx; [destruct Hx|]. destruct t as [|b t]; [destruct Hx|].
+  cbn [row_diffs] in Hx. destruct (H a (or_introl eq_refl)) as [A1 A2]. destruct (H b (or_intror (or_introl eq_refl))) as [B1 B2].
+  destruct Hx as [<-|[<-|Hx]]; [lra|lra|]. apply IH; [|exact Hx]. intros n Hn. apply H. now right. Qed.
+Lemma row_diffs_nonempty l : (2 <= length l)%nat -> row_diffs l <> [].
+Proof. destruct l as [|a [|b t]]; cbn [length]; try lia. intros _. discriminate. Qed.
+Lemma sub_self_zero (o : occ) n : In n (map (fun pq => nsub (fst pq) (snd pq)) (combine o o)) -> fst n == 0 /\ snd n == 0.
+Proof. intros H. apply in_map_iff in H. destruct H as ([a b] & <- & Hi).
+  assert (a = b). { clear -Hi. induction o as [|c t IH]; [destruct Hi|]. destruct Hi as [E|Hi]; [congruence|auto]. }
+  subst b. unfold nsub. cbn [fst snd]. split; ring. Qed.
+Lemma sub_length (P Qo : occ) : length Qo = length P -> length (map (fun pq => nsub (fst pq) (snd pq)) (combine P Qo)) = length P.
+Proof. intros L. rewrite map_length, combine_length, L. apply Nat.min_id. Qed.
+
+Lemma proto_match_self tol o : o <> [] -> 0 < tol -> proto_match tol o o = Ok true.
+Proof. intros N Ht. unfold proto_match. rewrite Nat.eqb_refl. cbn [negb]. destruct (length o =? 1)%nat eqn:L1; [reflexivity|].
+  apply Nat.eqb_neq in L1. set (D := map (fun pq => nsub (fst pq) (snd pq)) (combine o o)).
+  assert (LD : (2 <= length D)%nat). { unfold D. rewrite sub_length by reflexivity. destruct o as [|a [|b t]]; [congruence|cbn in L1; lia|cbn; lia]. }
+  pose proof (row_diffs_zero D (sub_self_zero o)) as Z. destruct (row_diffs D) as [|x l] eqn:E; [now apply row_diffs_nonempty in LD|].
+  f_equal. apply qltb_true. assert (Nn : map Qabs (x :: l) <> []) by discriminate.
+  destruct (qmaxl_in _ Nn) as (y & Hy & ->). apply in_map_iff in Hy. destruct Hy as (z & <- & Hz). rewrite (Z z Hz). exact Ht. Qed.
+Lemma proto_match_ok tol P Qo : P <> [] -> exists b, proto_match tol P Qo = Ok b.
+Proof. intros N. unfold proto_match. destruct (length P =? length Qo)%nat eqn:L; cbn [negb]; [|now eexists].
+  destruct (length P =? 1)%nat eqn:L1; [now eexists|]. apply Nat.eqb_eq in L. apply Nat.eqb_neq in L1.
+  set (D := map (fun pq => nsub (fst pq) (snd pq)) (combine P Qo)).
+  assert (LD : (2 <= length D)%nat). { unfold D. rewrite sub_length by auto. destruct P as [|a [|b t]]; [congruence|cbn in L1; lia|cbn; lia]. }
+  destruct (row_diffs D) as [|x l] eqn:E; [now apply row_diffs_nonempty in LD|]. now eexists. Qed.
+Lemma proto_ok (e : pattern) : e <> [] -> exists o, proto e = Ok o /\ In o e.
+Proof. destruct e as [|o t]; [congruence|]. intros _. exists o. split; [reflexivity|now left]. Qed.
+
+Lemma scan_est_true tol P ests e o : P <> [] -> (forall x, In x ests -> x <> []) -> In e ests -> proto e = Ok o ->
+  proto_match tol P o = Ok true -> scan_est tol P ests = Ok true.
+Proof. intros N. induction ests as [|e0 t IH]; intros Hne Hi Hp Hm; [destruct Hi|]. cbn [scan_est].
+  destruct (proto_ok e0) as (o0 & Hp0 & _); [apply Hne; now left|]. rewrite Hp0. cbn [bind].
+  destruct (proto_match_ok tol P o0 N) as ([|] & Hb); rewrite Hb; cbn [bind]; [reflexivity|].
+  destruct Hi as [E|Hi].
+  - subst e0. rewrite Hp in Hp0. injection Hp0 as <-. congruence.
+  - apply IH; auto. intros x Hx. apply Hne. now right. Qed.
+
+Lemma count_matches_all tol refs ests : 0 < tol -> (forall x, In x ests -> x <> []) ->
+  (forall r, In r refs -> In r ests /\ forall o, In o r -> o <> []) -> count_matches tol refs ests = Ok (length refs).
+Proof. intros Ht Hne. induction refs as [|r t IH]; intros H; [reflexivity|]. cbn [count_matches length].
+  destruct (H r (or_introl eq_refl)) as [Hr Ho]. destruct (proto_ok r (Hne r Hr)) as (o & Hp & Hin). rewrite Hp. cbn [bind].
+  rewrite (scan_est_true tol o ests r o (Ho o Hin) Hne Hr Hp (proto_match_self tol o (Ho o Hin) Ht)). cbn [bind].
+  rewrite IH; [reflexivity|]. intros x Hx. apply H. now right. Qed.
+
+Theorem standard_self ref tol : good ref -> 0 < tol -> exists t, standard_FPR ref ref tol = Ok t /\ all_ones t.
+Proof. intros G Ht. unfold standard_FPR. rewrite (good_validate ref G), (good_no_notes ref G). cbn [bind].
+  destruct G as [N G]. rewrite count_matches_all; [|exact Ht|intros x Hx; apply (G x Hx)|].
+  - cbn [bind]. eexists. split; [reflexivity|]. apply mk_fpr_ones; apply Qdiv_same, qnat_pos; destruct ref; [congruence|cbn; lia| congruence|cbn; lia].
+  - intros r Hr. split; [exact Hr|]. intros o Ho. apply (G r Hr). exact Ho. Qed.
+
+(* what standard_FPR counts: the reference patterns whose prototype matches the prototype of some estimated pattern *)
+Lemma scan_est_spec tol P ests b : scan_est tol P ests = Ok b ->
+  (b = true <-> exists e o, In e ests /\ proto e = Ok o /\ proto_match tol P o = Ok true).
+Proof. revert b. induction ests as [|e t IH]; intros b; cbn [scan_est].
+  - intros H. injection H as <-. split; [discriminate|]. intros (e & o & [] & _).
+  - destruct (proto e) as [o|] eqn:Hp; [|discriminate]. cbn [bind]. destruct (proto_match tol P o) as [[|]|] eqn:Hm; [| |discriminate]; cbn [bind].
+    + intros H. injection H as <-. split; [|reflexivity]. intros _. exists e, o. repeat split; auto. now left.
+    + intros H. rewrite (IH b H). split; intros (e' & o' & Hi & Hp' & Hm').
+      * exists e', o'. repeat split; auto. now right.
+      * destruct Hi as [<-|Hi]; [congruence|]. now exists e', o'. Qed.
+Definition proto_hit (tol : Q) (ests : list pattern) (r : pattern) : bool :=
+  match proto r with Ok P => match scan_est tol P ests with Ok true => true | _ => false end | Raise _ => false end.
+Lemma count_matches_spec tol refs ests k : count_matches tol refs ests = Ok k -> k = length (filter (proto_hit tol ests) refs).
+Proof. revert k. induction refs as [|r t IH]; intros k; cbn [count_matches filter].
+  - intros H. now injection H as <-.
+  - unfold proto_hit at 1. destruct (proto r) as [P|]; [|discriminate]. cbn [bind]. destruct (scan_est tol P ests) as [b|]; [|discriminate].
+    cbn [bind]. destruct (count_matches tol t ests) as [k'|]; [|discriminate]. cbn [bind]. intros H. injection H as <-.
+    rewrite (IH k' eq_refl). now destruct b. Qed.
+Theorem standard_def ref est tol f p r : standard_FPR ref est tol = Ok (f, p, r) -> no_notes ref est = false ->
+  let k := length (filter (proto_hit tol est) ref) in
+  p = qnat k / qnat (length est) /\ r = qnat k / qnat (length ref) /\ f = f_measure p r 1.
+Proof. unfold standard_FPR. destruct (validate ref est); [|discriminate]. cbn [bind]. intros H Hn. rewrite Hn in H.
+  destruct (count_matches tol ref est) as [k|] eqn:K; [|discriminate]. cbn [bind] in H. injection H as <- <- <-.
+  apply count_matches_spec in K. subst k. cbv zeta. auto. Qed.
+
+(* C04: the three Collins metrics, written out on the primitive notions: |set(P) & set(Q)| = inter_count, lengths, maxima, means *)
+Theorem canon_eq a b : canon a = canon b <-> fst a == fst b /\ snd a == snd b.
+Proof. unfold canon. split.
+  - intros H. apply pair_equal_spec in H. destruct H as [H1 H2].
+    split; [rewrite <- (Qred_correct (fst a)), <- (Qred_correct (fst b)), H1|rewrite <- (Qred_correct (snd a)), <- (Qred_correct (snd b)), H2]; reflexivity.
+  - intros [H1 H2]. apply pair_equal_spec. split; now apply Qred_complete. Qed.
+Theorem inter_count_def P Qo : exists l, NoDup l /\ (forall x, In x l <-> In x (map canon P) /\ In x (map canon Qo)) /\ inter_count P Qo = length l.
+Proof. exists (inter_set P Qo). split; [apply inter_set_NoDup|]. split; [apply inter_set_In|reflexivity]. Qed.
+
+Theorem establishment_def ref est f p r : establishment_FPR ref est = Ok (f, p, r) -> no_notes ref est = false ->
+  let card := fun oP oQ => qnat (inter_count oP oQ) / qnat (Nat.max (length oP) (length oQ)) in
+  let S := fun P Qp => qmaxl (concat (map (fun oP => map (card oP) Qp) P)) in
+  p = qmean (map (fun Qp => qmaxl (map (fun P => S P Qp) ref)) est)
+  /\ r = qmean (map (fun P => qmaxl (map (fun Qp => S P Qp) est)) ref)
+  /\ f = f_measure p r 1.
+Proof. rewrite establishment_unfold. destruct (validate ref est); [|discriminate]. cbn [bind]. intros H Hn. rewrite Hn in H.
+  destruct (sm_raises ref est); [discriminate|]. injection H as <- <- <-. cbv zeta. repeat split. Qed.
+Theorem three_layer_def ref est f p r : three_layer_FPR ref est = Ok (f, p, r) -> no_notes ref est = false ->
+  let F1 := fun o1 o2 => f_measure (qnat (inter_count o1 o2) / qnat (length o1)) (qnat (inter_count o1 o2) / qnat (length o2)) 1 in
+  let P2 := fun P Qp => qmean (map (fun oQ => qmaxl (map (fun oP => F1 oP oQ) P)) Qp) in
+  let R2 := fun P Qp => qmean (map (fun oP => qmaxl (map (fun oQ => F1 oP oQ) Qp)) P) in
+  let F2 := fun P Qp => f_measure (P2 P Qp) (R2 P Qp) 1 in
+  p = qmean (map (fun Qp => qmaxl (map (fun P => F2 P Qp) ref)) est)
+  /\ r = qmean (map (fun P => qmaxl (map (fun Qp => F2 P Qp) est)) ref)
+  /\ f = f_measure p r 1.
+Proof. rewrite three_layer_unfold. destruct (validate ref est); [|discriminate]. cbn [bind]. intros H Hn. rewrite Hn in H.
+  destruct (tl_raises ref est); [discriminate|]. injection H as <- <- <-. cbv zeta. repeat split. Qed.
+Theorem occurrence_def ref est thres f p r : occurrence_FPR ref est thres = Ok (f, p, r) -> no_notes ref est = false ->
+  let card := fun oP oQ => qnat (inter_count oP oQ) / qnat (Nat.max (length oP) (length oQ)) in
+  let relevant := fun P Qp => Qle_bool thres (qmaxl (concat (map (fun oP => map (card oP) Qp) P))) in
+  let OP := fun P Qp => if relevant P Qp then qmean (map (fun oQ => qmaxl (map (fun oP => card oP oQ) P)) Qp) else 0 in
+  let OR := fun P Qp => if relevant P Qp then qmean (map (fun oP => qmaxl (map (fun oQ => card oP oQ) Qp)) P) else 0 in
+  let rel := filter (fun pq => relevant (fst pq) (snd pq)) (list_prod ref est) in
+  (rel = [] -> p = 0 /\ r = 0) /\
+  (rel <> [] -> p = qmean (map (fun b => qmaxl (map (fun a => OP (fst a) (snd b)) rel)) rel)
+                /\ r = qmean (map (fun a => qmaxl (map (fun b => OR (fst a) (snd b)) rel)) rel))
+  /\ f = f_measure p r 1.
+Proof. rewrite occurrence_unfold. destruct (validate ref est); [|discriminate]. cbn [bind]. intros H Hn. rewrite Hn in H.
+  destruct (sm_raises ref est); [discriminate|]. cbv zeta. unfold occ_fpr in H.
+  change (filter (fun pq => Qle_bool thres (qmaxl (concat (map (fun oP => map (fun oQ => qnat (inter_count oP oQ) / qnat (Nat.max (length oP) (length oQ))) (snd pq)) (fst pq)))))
+                 (list_prod ref est)) with (rel_pairs thres ref est).
+  destruct (rel_pairs thres ref est) as [|x t] eqn:E; cbn [is_nil] in H; injection H as <- <- <-.
+  - split; [intros _; split; reflexivity|]. split; [intros C; now contradiction C|reflexivity].
+  - split; [discriminate|]. split; [|reflexivity]. intros _. split; reflexivity. Qed.
+
+Print Assumptions standard_self.
+Print Assumptions standard_def.
+Print Assumptions establishment_def.
+Print Assumptions three_layer_def.
+Print Assumptions occurrence_def.
+Print Assumptions inter_count_def.
+Print Assumptions canon_eq.
